@@ -39,12 +39,13 @@ macro_rules! from_small { ($name:ident, $t:ty) => {
     }
 }; }
 macro_rules! from_big_valid { ($name:ident, $t:ty) => {
-    /// From<64/128-bit int>: the result is a valid TwoFloat with hi == RN(n) (all values of the type)
+    /// From<64/128-bit int>: the result is a valid TwoFloat (all values of the type).  (A first version also demanded
+    /// hi == RN(n); the property does not, and the renormalised result legitimately moves to the neighbouring
+    /// high word when the rounded remainder is a half-ulp tie next to an odd RN(n) - removed as a false alarm.)
     pub fn $name() {
         let n = any_int!($t);
         let r = TwoFloat::from(n);
         vassert!(valid(r.hi, r.lo), "From<int>: result is a valid TwoFloat");
-        vassert!(r.hi == n as f64, "From<int>: high word is n rounded to f64");
         vcover!(r.lo != 0.0, "non-zero low word reachable");
     }
 }; }
